@@ -9,6 +9,6 @@ CONSTANTS
   JumboInside = FALSE
   ExportUnspecLen = 4
   Variant = "code"
-INVARIANTS Refinement
+INVARIANTS Refinement IdempotentInv RunAgrees Tight AfterSort Lemmas RegionAgree RingInv
 ACTION_CONSTRAINT Export
 CHECK_DEADLOCK FALSE
